@@ -398,14 +398,18 @@ def rule_backend_refuses_errors(chk, repo, rid):
 
 
 # --------------------------------------------------------------------------- C05.6 canonical key
-def rule_filed_under_canonical_text(chk, ev, repo, rid):
+def rule_filed_under_canonical_text(chk, ev, repo, rid, accept_raw=False):
+    """accept_raw: for transparency (C04) a result filed under the as-typed text of the *same* query is harmless
+    (a non-canonical text is canonical for no other query, C02); C05 demands the canonical text."""
     chk.rule(rid, "results are filed under the canonical text: `state.query = query.encode()` is the definition "
-                  "reaching cache.store(state), and every back-end derives its key from state.query only")
+                  "reaching cache.store(state), and every back-end derives its key from state.query only"
+                  + (" (the as-typed text of the same query is accepted too: it denotes the same query)" if accept_raw else ""))
     C = "liquer.context.Context.evaluate"
     st = ev.one(ev.store_calls, "cache.store site")
     ra, rb, fe = reaching_defs_attr(ev.cfg, "state", "state.query", ev.node(st))
     vals = [U(assigned_value(ev.cfg, d, "state.query")) for d in ra]
-    ok = bool(ra) and not rb and not fe and all(v == f"{ev.queryvar}.encode()" for v in vals)
+    accepted = {f"{ev.queryvar}.encode()"} | ({ev.rawvar, "self.raw_query"} if accept_raw else set())
+    ok = bool(ra) and not rb and not fe and all(v in accepted for v in vals)
     qdefs = ev.cfg.reaching_defs(ev.queryvar, ev.node(st))
     ok = ok and all(d != ev.cfg.entry and call_tail(ev.cfg.nodes[d].ast.value) == "to_query" for d in qdefs)
     chk.ob(rid, C, ok, f"state.query reaching cache.store is {vals or 'not re-labelled after the action'}"
